@@ -135,7 +135,7 @@ type finding struct {
 // history hist (hist[0] is the starting position, hist[len-1] == old).
 // via is the update that caused the step (== new except for the voteproofs
 // store, where the cap may move to another stored voteproof).
-func judge(form string, hist []pos, nw, via pos) []finding {
+func judge(form string, hist []pos, nw, via pos, scUpdateSeen ...bool) []finding {
 	old := hist[len(hist)-1]
 	var out []finding
 	wit := func() any {
@@ -200,6 +200,18 @@ func judge(form string, hist []pos, nw, via pos) []finding {
 			sig = form + ":retaken-after-backward-step"
 		default:
 			sig = fmt.Sprintf("%s:retaken-without-backward-step:step=%s:to=%s", form, dir, nw.kind())
+		}
+		// every re-take the unchanged code allows goes through a suffrage-confirm
+		// step back; one that happens without any suffrage-confirm position in the
+		// history is another failure
+		hasSC := nw.SC || via.SC || (len(scUpdateSeen) > 0 && scUpdateSeen[0])
+		for j := range hist {
+			if hist[j].SC {
+				hasSC = true
+			}
+		}
+		if !hasSC {
+			sig += ":no-sc-in-history"
 		}
 		out = append(out, finding{sig,
 			fmt.Sprintf("%s: position %s taken a second time (first at step %d) by step %s -> %s", form, nw.kind(), first, old, nw), wit()})
@@ -326,6 +338,7 @@ func TestC06(t *testing.T) {
 	r.Assume("LastVoteproofsHandler.ForceSetLast is a deliberate override and is not driven")
 	r.Assume("a suffrage-confirm candidate always has stage INIT (NewLastPoint refuses anything else; suffrage-confirm facts are INIT facts)")
 	r.Assume("LastVoteproofsHandler.Set returning true for a voteproof that only fills a missing slot (fillMissing, e.g. the previous height's ACCEPT) is not an accepted position: the position judged against is Last().Cap(); rejection of a lower height = IsNew false and Cap unchanged")
+	r.Assume("for the voteproofs store an update judged new and stored is a position taken: offered again at once it must not be new again, and unless it is a suffrage-confirm result taken by a step back it must be what Last().Cap() returns")
 	r.Assume("for the voteproofs store a step back is judged by the update that caused it (a suffrage-confirm voteproof while the cap is not a majority), since the cap may land on another stored voteproof")
 	r.Assume("a suffrage-confirm position is always a majority (NewLastPointFromVoteproof, the only producer in the real callers, derives suffrage-confirm from the majority fact), so (non-majority, suffrage-confirm) is not generated: 45 positions")
 	r.Assume("position = (height, round, stage, suffrage-confirm); the exception of the statement is read generously: a position may be taken again when the step replaces a non-majority by a majority at the current stage point, or when its previous take was a non-majority and the new one is a majority")
@@ -517,6 +530,7 @@ func TestC06(t *testing.T) {
 		h := isaac.NewLastVoteproofsHandler()
 		hist := []pos{zero}
 		var trace []string
+		seqHasSC := false
 		for k, idx := range seq {
 			vp := vps[idx][variant(k)]
 			c := vdom[idx]
@@ -551,11 +565,37 @@ func TestC06(t *testing.T) {
 			if after == nil && before != nil {
 				a.add([]finding{{hForm + ":cap-lost", fmt.Sprintf("cap nil after %s", c), wit}})
 			}
+			if c.SC {
+				seqHasSC = true
+			}
+			if isnew && set {
+				a.counts[hForm+"_accepted_updates"]++
+				scs := "sc-in-history"
+				if !seqHasSC {
+					scs = "no-sc-in-history"
+				}
+				// an accepted update is a position taken: offered again it must not be new again
+				if h.IsNew(vp) {
+					a.counts[hForm+"_accepted_update_still_new"]++
+					a.add([]finding{{fmt.Sprintf("%s:accepted-update-is-still-new:update=%s:%s", hForm, c.kind(), scs),
+						fmt.Sprintf("%s: voteproof %s was judged new and stored at position %s, the position is now %s and the same voteproof is judged new again", hForm, c, old, nw), wit}})
+				}
+				// the position judged against must be the accepted update, except that a
+				// suffrage-confirm result taken by a step back may leave a later stored ACCEPT as the cap
+				if nw != c && !c.SC {
+					why := "other"
+					if cmpSP(c, nw) > 0 && c.H == nw.H && c.R > nw.R {
+						why = "higher-round-ignored"
+					}
+					a.add([]finding{{fmt.Sprintf("%s:cap-is-not-the-accepted-update:%s:update=%s:%s", hForm, why, c.kind(), scs),
+						fmt.Sprintf("%s: voteproof %s was judged new and stored at position %s, but Last().Cap() is %s", hForm, c, old, nw), wit}})
+				}
+			}
 			if moved {
 				if nw != c {
 					a.counts[hForm+"_cap_moved_to_other_stored_voteproof"]++
 				}
-				fs := judge(hForm, hist, nw, c)
+				fs := judge(hForm, hist, nw, c, seqHasSC)
 				for i := range fs {
 					if nw != c {
 						fs[i].Sig += ":cap-is-not-the-update"
